@@ -210,6 +210,20 @@ class Executor:
         return {"executor_died": True, "reason": reason, "returncode": rc, "stderr": err, "hung": hung}
 
 
+def make_work_dir(prop_id, rank, root=None):
+    """A scratch directory whose path has the same LENGTH whatever the worker
+    rank and whoever creates it (pool worker, replay, minimiser): workloads that
+    embed the path must not change size with it.  Returns (dir, root to remove or None)."""
+    import tempfile
+    own = None
+    if root is None:
+        root = tempfile.mkdtemp(prefix=f"verif-{prop_id}-")
+        own = root
+    d = os.path.join(root, f"w{rank:03d}")
+    os.makedirs(d, exist_ok=True)
+    return d, own
+
+
 # ----------------------------------------------------------------------
 # known findings
 # ----------------------------------------------------------------------
